@@ -105,3 +105,18 @@ package keeper
 //@   flag havoc=AllocateTokens
 //@   ensures[C17.aee.every] defined(res_GetParams_0) && (epochIdentifier == res_GetParams_0.EpochIdentifier ==> defined(res_AllocateTokens_0))
 //@   before[C17.aee.power]  AllocateTokens requires arg_totalPreviousPower == res_Int64_0 && epochIdentifier == res_GetParams_0.EpochIdentifier
+
+// ---------------------------------------------------------------------------------------------
+// C18 (the exported document holds every collection of the module's store): the parameters are exported from their own
+// accessor. The community pool, the validators' accumulated commissions and outstanding rewards and the stakers'
+// outstanding rewards - every claim on the coins the module account holds - are in no field of the genesis state and
+// are read by nothing in ExportGenesis: the four clauses below name the reads that would have to exist, and stand as
+// known finding F-GEN-8.
+//@ func (Keeper).ExportGenesis
+//@   flag noframe
+//@   flag pure=DefaultGenesis,GetParams
+//@   ensures[C18.fxg.params]      defined(res_GetParams_0) && r0.Params == res_GetParams_0
+//@   ensures[C18.fxg.pool]        defined(res_GetFeePool_0)
+//@   ensures[C18.fxg.commission]  defined(res_GetAllValidatorAccumulatedCommissions_0)
+//@   ensures[C18.fxg.outstanding] defined(res_GetAllValidatorOutstandingRewards_0)
+//@   ensures[C18.fxg.stakers]     defined(res_GetAllStakerRewards_0)
